@@ -183,7 +183,21 @@ pub fn run_profile(a: &RunArgs, profile: &str, exe: &str, replay_dir: &str) -> P
     let mut death_classes: BTreeMap<String, u64> = BTreeMap::new();
     let mut truncated = false;
     let mut active = w;
+    // A change that breaks the property systematically produces thousands of identical violations
+    // (and, for allocation bugs, runs that take seconds each): once this many have been collected
+    // the remaining runs add nothing and the batch is cut short.
+    let max_viol: usize = std::env::var("VERIF_MAX_VIOLATIONS").ok().and_then(|s| s.parse().ok()).unwrap_or(300);
     while active > 0 {
+        if found.len() + (deaths as usize) >= max_viol && !truncated {
+            eprintln!("NOTE: {} violations collected; remaining runs of this profile are not explored", found.len() + deaths as usize);
+            truncated = true;
+            for st in ws.iter_mut() {
+                if st.alive {
+                    st.done = true; // its EOF is then an orderly end
+                    let _ = st.child.kill();
+                }
+            }
+        }
         match rx.recv_timeout(Duration::from_millis(500)) {
             Ok(Msg::Line(k, l)) => {
                 let st = &mut ws[k];
@@ -222,7 +236,7 @@ pub fn run_profile(a: &RunArgs, profile: &str, exe: &str, replay_dir: &str) -> P
             Ok(Msg::Eof(k)) => {
                 let status = ws[k].child.wait().expect("wait");
                 ws[k].alive = false;
-                if ws[k].done && status.success() {
+                if ws[k].done && (status.success() || truncated) {
                     active -= 1;
                     continue;
                 }
